@@ -151,6 +151,8 @@ func (g *Gen) readSchedule(docLen int) []int {
 
 func genC13(g *Gen) {
 	g.sizeSweep("csv")
+	g.longSweep("csv")
+	g.enumSeparators()
 	g.arrangedFrames("csv arranged", func(f int) {
 		g.do(Step{Op: "ToCSV", Recv: f})
 		g.do(Step{Op: "ToCSV", Recv: f, Csv: &CsvConf{WriteCols: bsList([]string{"P", "S", "I", "F", "B", "E", "X"})}})
@@ -198,6 +200,7 @@ func genC13(g *Gen) {
 
 func genC14(g *Gen) {
 	g.sizeSweep("json")
+	g.longSweep("json")
 	g.arrangedFrames("json arranged", func(f int) {
 		g.do(Step{Op: "ToJSON", Recv: f})
 		nn := g.do(Step{Op: "Drop", Recv: f, Cols: bsList([]string{"F"})}) // NaN has no JSON form to return from
@@ -246,6 +249,37 @@ func genC14(g *Gen) {
 		f := g.do(Step{Op: "New", Recv: -1, HasOrder: true, ColOrder: bsList([]string{"F"}), Data: []ColData{{Name: toBS("F"), Kind: "float", Floats: txt}}})
 		g.do(Step{Op: "ToJSON", Recv: f})
 		g.do(Step{Op: "ReadJSON", Other: f + 1, Reads: g.readSchedule(0)})
+		g.end()
+	}
+	// neighbouring cells that are equal under == but not identical (both zeros), runs of equal values, NaN runs
+	for _, seq := range [][]string{{"0", "-0"}, {"-0", "0"}, {"0", "-0", "-0", "0", "0"}, {"1.5", "1.5", "-1.5", "1.5"}, {"NaN", "NaN", "0", "NaN", "-0"}, {"-0"}, {"1e300", "1e300", "1e-300"}} {
+		g.begin("json neighbours")
+		ints := make([]int64, len(seq))
+		for i := range ints {
+			ints[i] = int64(len(seq) - i)
+		}
+		f := g.do(Step{Op: "New", Recv: -1, HasOrder: true, ColOrder: bsList([]string{"F", "P"}), Data: []ColData{{Name: toBS("F"), Kind: "float", Floats: seq}, {Name: toBS("P"), Kind: "int", Ints: ints}}})
+		g.do(Step{Op: "ToJSON", Recv: f})
+		g.do(Step{Op: "ToCSV", Recv: f})
+		srt := g.do(Step{Op: "Sort", Recv: f, Orders: []Order{{Col: toBS("P")}}})
+		g.do(Step{Op: "ToJSON", Recv: srt})
+		g.do(Step{Op: "ToCSV", Recv: srt})
+		g.end()
+	}
+	// columns that got their name from an aggregation (As), a copy, a row-number step
+	for rep := 0; rep < g.pick(6, 60); rep++ {
+		g.begin("json renamed columns")
+		f := g.do(g.stdNew(2+g.rng.Intn(6), "ABFS", 4))
+		g.do(Step{Op: "GroupBy", Recv: f, Cols: bsList([]string{"A"})})
+		a := g.do(Step{Op: "Aggregate", Recv: len(g.x.groupers) - 1, Aggs: []Agg{{Fn: FnRef{K: "builtin", Sym: "sum"}, Col: toBS("B"), As: toBS("total")},
+			{Fn: FnRef{K: "builtin", Sym: "max"}, Col: toBS("B"), As: toBS("biggest")}, {Fn: FnRef{K: "builtin", Sym: "count"}, Col: toBS("F")}}})
+		for _, x := range []int{a, g.do(Step{Op: "Copy", Recv: f, Dst: toBS("copy"), Src: toBS("S")}), g.do(Step{Op: "WithRowNums", Recv: f, Dst: toBS("B")})} {
+			if g.frame(x).Err == nil {
+				g.do(Step{Op: "ToJSON", Recv: x})
+				g.do(Step{Op: "ToCSV", Recv: x})
+				g.do(Step{Op: "String", Recv: x})
+			}
+		}
 		g.end()
 	}
 	// hand-written documents for ReadJSON alone
@@ -486,6 +520,21 @@ func genC09(g *Gen) {
 		g.end()
 	}
 	g.enumUpperFamilies()
+	g.sizeSweep("json")
+	g.sizeSweep("csv")
+	for rep := 0; rep < g.pick(20, 200); rep++ {
+		g.begin("sibling column additions")
+		f := g.do(g.stdNew([]int{1, 3, 6}[g.rng.Intn(3)], g.oneOf([]string{"AB", "ABF", "SAT", "EXAF"}), 8))
+		g.siblingAdds(f)
+		for i := f; i < len(g.x.frames); i++ {
+			if g.frame(i).Err == nil {
+				g.do(Step{Op: "ToCSV", Recv: i})
+				g.do(Step{Op: "ToJSON", Recv: i})
+				g.do(Step{Op: "String", Recv: i})
+			}
+		}
+		g.end()
+	}
 	g.indexArrangements()
 	g.arrangedFrames("observers arranged", func(f int) {
 		g.do(Step{Op: "String", Recv: f})
@@ -767,6 +816,48 @@ func (g *Gen) indexArrangements() {
 				g.do(Step{Op: "SliceObs", Recv: -1, A: 0})
 				g.end()
 			}
+		}
+	}
+}
+
+// longSweep: the same for much longer outputs (up to ~128 KiB, so that buffer sizes up to 64 KiB are crossed
+// at every phase): one 14 000-row frame with tiny records, written for every prefix length. The screen is
+// the end of the output and the number of records only; what it selects is judged by the specification.
+func (g *Gen) longSweep(format string) {
+	const maxN = 14000
+	a := make([]int, maxN)
+	for i := range a {
+		a[i] = i % 10
+	}
+	base := qframe.New(map[string]interface{}{"a": a})
+	forwarded := 0
+	var buf bytes.Buffer
+	for n := 2000; n <= maxN && forwarded < 3; n++ {
+		qf := base.Slice(0, n)
+		buf.Reset()
+		suspicious := false
+		if format == "json" {
+			err := qf.ToJSON(&buf)
+			b := buf.Bytes()
+			suspicious = err != nil || !bytes.HasSuffix(b, []byte("}]")) || !bytes.HasPrefix(b, []byte("[{")) || bytes.Count(b, []byte("},{")) != n-1
+		} else {
+			err := qf.ToCSV(&buf)
+			suspicious = err != nil || bytes.Count(buf.Bytes(), []byte("\n")) != n+1
+		}
+		if suspicious {
+			forwarded++
+			ai := make([]int64, n)
+			for i := range ai {
+				ai[i] = int64(a[i])
+			}
+			g.begin("long sweep")
+			f := g.do(Step{Op: "New", Recv: -1, Data: []ColData{{Name: toBS("a"), Kind: "int", Ints: ai}}})
+			if format == "json" {
+				g.do(Step{Op: "ToJSON", Recv: f})
+			} else {
+				g.do(Step{Op: "ToCSV", Recv: f})
+			}
+			g.end()
 		}
 	}
 }
